@@ -2,7 +2,10 @@ use crate::run::Ctx;
 use serde_json::Value;
 
 pub mod c01;
+pub mod c04;
 pub mod c05;
+pub mod c06;
+pub mod c07;
 
 pub struct Entry {
     pub id: &'static str,
@@ -13,7 +16,10 @@ pub struct Entry {
 pub fn lookup(id: &str) -> Option<Entry> {
     Some(match id {
         "C01" => Entry { id: "C01", check: c01::check, replay: c01::replay },
+        "C04" => Entry { id: "C04", check: c04::check, replay: c04::replay },
         "C05" => Entry { id: "C05", check: c05::check, replay: c05::replay },
+        "C06" => Entry { id: "C06", check: c06::check, replay: c06::replay },
+        "C07" => Entry { id: "C07", check: c07::check, replay: c07::replay },
         _ => return None,
     })
 }
